@@ -33,7 +33,7 @@ def run(ctx, res):
     # framing
     wb = prog.need("_mtbl_writer_write_block", W)
     res.saw(wb)
-    ev = APE.run(prog, cg, wb, bound=1)
+    ev = APE.run(prog, cg, wb, bound=APE.BOUND)
     for p in ev.paths:
         if p.end != "exit":
             continue
@@ -69,7 +69,7 @@ def run(ctx, res):
         res.check("htole32" in macs or any("htole32" in g.macros(x) for x in walk(rhs)), "C09.R2", site(g, "crc-little-endian"),
                   "checksum converted to little-endian before it is written as raw bytes", "checksum is written in host byte order", g.loc(n))
         # after the last definition of data / len_data on every path
-        evp = APE.run(prog, cg, g, bound=1)
+        evp = APE.run(prog, cg, g, bound=APE.BOUND)
         for p in evp.paths:
             if p.end != "exit":
                 continue
@@ -98,7 +98,7 @@ def run(ctx, res):
     # ---- R3 restart cadence ---------------------------------------------------------------
     res.floor("C09.R3", 3)
     add = prog.need("block_builder_add", fmt.BB)
-    ev = APE.run(prog, cg, add, bound=1)
+    ev = APE.run(prog, cg, add, bound=APE.BOUND)
     for p in ev.paths:
         if p.end != "exit":
             continue
@@ -126,7 +126,7 @@ def run(ctx, res):
         else:
             res.bad("C09.R3", site(add, "cadence"), "prefix sharing does not depend on the restart counter", add.loc(add.body), p.describe(add))
     rs = prog.need("block_builder_reset", fmt.BB)
-    ev = APE.run(prog, cg, rs, bound=1)
+    ev = APE.run(prog, cg, rs, bound=APE.BOUND)
     for p in ev.paths:
         if p.end != "exit":
             continue
@@ -141,7 +141,7 @@ def run(ctx, res):
     # ---- R4 size gate -----------------------------------------------------------------------
     res.floor("C09.R4", 2)
     wadd = prog.need("mtbl_writer_add", W)
-    ev = APE.run(prog, cg, wadd, bound=1)
+    ev = APE.run(prog, cg, wadd, bound=APE.BOUND)
     for p in ev.paths:
         if p.end != "exit" or p.ret() != ("c", OKV):
             continue
@@ -173,7 +173,7 @@ def run(ctx, res):
     # ---- R5 offsets ---------------------------------------------------------------------------
     res.floor("C09.R5", 3)
     wdb = prog.need("_mtbl_writer_write_data_block", W)
-    ev = APE.run(prog, cg, wdb, bound=1)
+    ev = APE.run(prog, cg, wdb, bound=APE.BOUND)
     for p in ev.paths:
         if p.end != "exit":
             continue
@@ -195,7 +195,7 @@ def run(ctx, res):
                   "index entry / offset bookkeeping differs: encoded %s, pending_offset := %s" % (
                       APE.vstr(enc[0].b[1]) if enc else None, APE.vstr(po[0].b) if po else None), wdb.loc(wdb.body), p.describe(wdb))
     ini = prog.need("mtbl_writer_init_fd", W)
-    ev = APE.run(prog, cg, ini, bound=1, opaque_calls=("lseek", "dup"))
+    ev = APE.run(prog, cg, ini, bound=APE.BOUND, opaque_calls=("lseek", "dup"))
     for p in ev.paths:
         if p.end != "exit":
             continue
@@ -215,7 +215,7 @@ def run(ctx, res):
     res.floor("C09.R6", 2)
     sepf = prog.need("bytes_shortest_separator", W)
     res.saw(sepf)
-    evs_ = APE.run(prog, cg, sepf, bound=1)
+    evs_ = APE.run(prog, cg, sepf, bound=APE.BOUND)
     nmod = 0
     for p in evs_.paths:
         if p.end != "exit":
